@@ -66,11 +66,20 @@ LEAPS = [(1976, 1), (1977, 1), (1978, 1), (1979, 1), (1980, 1), (1981, 7), (1982
          (2012, 7), (2015, 7)]
 
 
-def ensure_frames():
-    from .c01 import sister_frame
+_sisters = {}
 
-    for body, k in SISTER.values():
-        sister_frame(body, k)
+
+def ensure_frames():
+    """frames with EME2000 axes and the Earth's origin whose central body is another one (k x the mass of `body`)"""
+    from beyond import constants
+    from beyond.frames import center, frames, orient
+
+    for name, (body, k) in SISTER.items():
+        if name not in _sisters:
+            b = getattr(constants, body)
+            c = center.Center(name + "C", body=constants.Body(name, b.mass * k, b.equatorial_radius))
+            c.add_link(frames.get_frame("EME2000").center, orient.EME2000, np.zeros(6))
+            _sisters[name] = frames.Frame(name, orient.EME2000, c)
 
 
 def eop_of(shard):
@@ -173,8 +182,14 @@ def history(draw):
             ops.append(dict(op="copy_cov", frame=f, adopt=draw(st.booleans())))
         else:
             ops.append(dict(op="copy_state", frame=pick([None, None, None] + BUILTIN)))
-    return dict(el=el, t=t, start=pick(START), form=pick(FORMS),
-                label=pick(["obj", "obj", "obj", "str"]), cov=cov, ops=ops, scale=pick(SCALES))
+    out = dict(el=el, t=t, start=pick(START), form=pick(FORMS),
+               label=pick(["obj", "obj", "obj", "str"]), cov=cov, ops=ops, scale=pick(SCALES))
+    if draw(st.integers(0, 2)) == 0:
+        out["given_in"] = pick(BUILTIN + LOCAL + START)
+        out["pre"] = [dict(frame=pick(BUILTIN + LOCAL + [None]), how=pick(["set", "copy"]), how_name=draw(st.booleans()))
+                      for _ in range(draw(st.integers(0, 2)))]
+        out["rebuild"] = draw(st.integers(0, 3)) == 0
+    return out
 
 
 def make_c0(spec):
@@ -331,7 +346,9 @@ class Model:
 
 
 def describe(case, upto):
-    out = [f"start {case['start']}"]
+    out = [f"start {case['start']}" + (f" (cov given in {case['given_in']})" if case.get("given_in") else "")
+           + "".join(f" standalone:{p['how']}->{p['frame'] or 'state frame'}" for p in case.get("pre") or [])
+           + (" rebuilt" if case.get("rebuild") else "")]
     for op in case["ops"][: upto + 1]:
         f = op.get("frame")
         if op["op"] == "clone":
@@ -420,24 +437,54 @@ def check_history(case):
     orb = StateVector(model.c, lib_date, "cartesian", model.start)
     if form != "cartesian":
         orb = orb.copy(form=form)
-    label = model.start if case["label"] == "str" else orb.frame
+    # The covariance may be given in another frame than its state's (CCSDS COV_REF_FRAME), converted while it still
+    # stands alone, rebuilt from the converted object, and only then attached to the state
+    given = case.get("given_in") or model.start
+    model.base = given
+    model.cov_frame = given
+    if given in ROTATING:
+        model.rotating_seen = True
+    if given in LOCAL or case["label"] == "str":
+        label = given
+    else:
+        label = orb.frame if given == model.start else get_frame(given)
     kind_c = case["cov"].get("container", "array")
     if kind_c == "from_cov":
         caller = None
-        orb.cov = Cov(orb, Cov(orb, model.C0.copy(), label), None)      # documented: values may be a Cov
+        cov = Cov(orb, Cov(orb, model.C0.copy(), label), None)      # documented: values may be a Cov
     else:
         caller = as_container(model.C0, kind_c)
-        orb.cov = Cov(orb, caller, label)
+        cov = Cov(orb, caller, label)
         if isinstance(caller, np.ndarray):
             # the caller's matrix is not kept by reference
             keep = caller[0, 0]
             caller[0, 0] = keep + abs(keep) + 1
-            if not np.array_equal(np.array(orb.cov, dtype=float), model.C0):
+            if not np.array_equal(np.array(cov, dtype=float), model.C0):
                 raise Violation("caller-matrix-aliased", f"writing into the matrix given to Cov() ({kind_c}) changed the covariance")
             caller[0, 0] = keep
     worst = [0.0]
-    check_cov(model, orb.cov, model.start, -1, worst=worst)
-    cls = [f"start:{model.start}", f"eop:{_eop[0]}",
+    pre_txt = []
+    for pre in case.get("pre") or []:
+        X = pre["frame"] or model.start
+        model.note(X)
+        arg = X if (X in LOCAL or pre.get("how_name", True)) else get_frame(X)
+        if pre["how"] == "copy":
+            cov = cov.copy(frame=arg)
+        else:
+            cov.frame = arg
+        model.cov_frame = X
+        pre_txt.append(f"{pre['how']}->{X}")
+        check_cov(model, cov, X, -1, what=f"the covariance given in {given}, still standalone, after {' '.join(pre_txt)},", worst=worst)
+    if case.get("rebuild"):
+        cov = Cov(orb, cov, None)
+        check_cov(model, cov, model.cov_frame, -1, what=f"Cov(orb, <covariance converted to {model.cov_frame}>, None)", worst=worst)
+    orb.cov = cov
+    if model.base != model.start or pre_txt:
+        model.nt = True
+    worst = [0.0]
+    check_cov(model, orb.cov, model.cov_frame, -1, worst=worst)
+    cls = [f"start:{model.start}", f"eop:{_eop[0]}", "given:state-frame" if given == model.start else f"given:{given}",
+           f"standalone-conversions:{len(pre_txt)}" + ("+rebuilt" if case.get("rebuild") else ""),
            f"label:{case['label']}", f"form:{form}", f"scale:{scale}", f"values:{kind_c}"]
     day_us = 86400 * 10**6
     off = (case["t"] + day_us // 2) % day_us - day_us // 2
